@@ -771,17 +771,17 @@ func (w *worker) refreshInto(c *vh.Case, kind string) error {
 	switch kind {
 	case "renew":
 		var r rhp4.RPCRenewContractResult
-		r, err = rhp4.RPCRenewContract(ctx, w.rig.T, w.rig.CM, fs, w.rig.CM.TipState(), settings.Prices, settings.WalletAddress, st.Revision, proto4.RPCRenewContractParams{
+		r, err = rhp4.RPCRenewContract(ctx, w.clientT(), w.rig.CM, fs, w.rig.CM.TipState(), settings.Prices, settings.WalletAddress, st.Revision, proto4.RPCRenewContractParams{
 			ContractID: w.s.CID(old), Allowance: types.Siacoins(100000), Collateral: types.Siacoins(200000), ProofHeight: st.Revision.ProofHeight + 2})
 		contract, set = r.Contract, r.RenewalSet
 	case "refresh-full":
 		var r rhp4.RPCRefreshContractResult
-		r, err = rhp4.RPCRefreshContractFullRollover(ctx, w.rig.T, w.rig.CM, fs, w.rig.CM.TipState(), settings.Prices, settings.WalletAddress, st.Revision, proto4.RPCRefreshContractParams{
+		r, err = rhp4.RPCRefreshContractFullRollover(ctx, w.clientT(), w.rig.CM, fs, w.rig.CM.TipState(), settings.Prices, settings.WalletAddress, st.Revision, proto4.RPCRefreshContractParams{
 			ContractID: w.s.CID(old), Allowance: types.Siacoins(1000), Collateral: types.Siacoins(2000)})
 		contract, set = r.Contract, r.RenewalSet
 	default:
 		var r rhp4.RPCRefreshContractResult
-		r, err = rhp4.RPCRefreshContractPartialRollover(ctx, w.rig.T, w.rig.CM, fs, w.rig.CM.TipState(), settings.Prices, settings.WalletAddress, st.Revision, proto4.RPCRefreshContractParams{
+		r, err = rhp4.RPCRefreshContractPartialRollover(ctx, w.clientT(), w.rig.CM, fs, w.rig.CM.TipState(), settings.Prices, settings.WalletAddress, st.Revision, proto4.RPCRefreshContractParams{
 			ContractID: w.s.CID(old), Allowance: types.Siacoins(100000), Collateral: types.Siacoins(200000)})
 		contract, set = r.Contract, r.RenewalSet
 	}
@@ -1042,6 +1042,102 @@ func (w *worker) storeFault(pos int, notFound, raw bool) error {
 	return nil
 }
 
+
+func (w *worker) clientT() rhp4.TransportClient {
+	if w.s.Client != nil {
+		return w.s.Client
+	}
+	return w.rig.T
+}
+
+// replays: everything the renter sent in an earlier, successful RPC is presented again, byte for
+// byte, on a fresh stream after the contract has been used: a formation (zero host collateral, so
+// the formation transaction and the contract id are determined by the renter's bytes alone; the
+// transaction still unconfirmed), an append, a free and a refresh.  Each replay must change nothing.
+func (w *worker) replays() error {
+	savedCid, savedCur := w.cid, w.cur
+	defer func() { w.cid, w.cur, w.s.Client = savedCid, savedCur, nil }()
+	rec := &rhpx.RecordingTransport{TransportClient: w.rig.T}
+	ctx := context.Background()
+	settings, err := rhp4.RPCSettings(ctx, w.rig.T)
+	if err != nil {
+		return err
+	}
+	fs := &rhpx.FundSigner{W: w.rig.W, PK: rhpx.Key(rhpx.RenterKeyID)}
+	formed, err := rhp4.RPCFormContract(ctx, rec, w.rig.CM, fs, w.rig.CM.TipState(), settings.Prices, w.rig.HostKey.PublicKey(), settings.WalletAddress, proto4.RPCFormContractParams{
+		RenterPublicKey: rhpx.Key(rhpx.RenterKeyID).PublicKey(), RenterAddress: w.rig.W.Address(),
+		Allowance: types.Siacoins(100000), Collateral: types.ZeroCurrency, ProofHeight: w.rig.CM.Tip().Height + 400})
+	w.rig.T.WaitIdle()
+	w.rig.Rec.Take()
+	if err != nil {
+		return fmt.Errorf("formation without host collateral failed: %w", err)
+	}
+	formation := rec.Last()
+	w.cid, w.cur = 6000, nil
+	w.s.AddContract(w.cid, formed.Contract.ID)
+	w.s.Client = rec
+	c := w.begin("replays", []int{30, 31, 32, 33})
+	// the host risks no collateral in this contract: price tables without collateral
+	noColl := func() rhpx.PriceSpec { p := w.s.GoodPrices(); p.P.Collateral = types.ZeroCurrency; return p }
+	replay := func(what string, sent []byte, expect []int) {
+		before := w.snap()
+		n := w.s.Replay(sent)
+		res := rhpx.Result{Cls: "replayed", Impl: fmt.Sprintf("replayed %d bytes, host answered %d", len(sent), n)}
+		w.check(c, what, "replay", before, res, true, expect)
+		w.observe(c)
+	}
+	before := w.snap()
+	res, _ := w.s.CAppend(w.cid, noColl(), []int{30, 31, 32})
+	appendBytes := rec.Last()
+	c.Op(res.Op, res.Impl)
+	if res.Cls != "ok" {
+		c.Oracle("client-append-rejected", "append failed: %s", res.Impl)
+	}
+	w.check(c, "append", "client", before, res, res.Cls != "ok", []int{30, 31, 32})
+	w.observe(c)
+	// the identical formation again, while its transaction is still unconfirmed
+	replay("form", formation, w.cur)
+	w.listAndRead(c, 0, uint64(len(w.cur)), true)
+	// the append again
+	replay("append", appendBytes, w.cur)
+	if len(c.Fails) > 0 || len(w.cur) == 0 {
+		// the host's state is already wrong: report what was found
+		c.Nontrivial = true
+		w.add(c, "kind:replays")
+		return nil
+	}
+	before = w.snap()
+	res, _ = w.s.CFree(w.cid, noColl(), []uint64{0})
+	freeBytes := rec.Last()
+	c.Op(res.Op, res.Impl)
+	w.check(c, "free", "client", before, res, res.Cls != "ok", swapRemove(w.cur, 0))
+	w.observe(c)
+	replay("free", freeBytes, w.cur)
+	replay("form", formation, w.cur)
+	// confirm the formation, refresh, and present formation and refresh again
+	if err := w.rig.Mine(1); err != nil {
+		return err
+	}
+	tl, ti := w.s.TipLine()
+	c.Op(tl, ti)
+	replay("form", formation, w.cur)
+	if err := w.refreshInto(c, "refresh-full"); err != nil {
+		c.Oracle("harness-setup", "%v", err)
+		w.add(c)
+		return nil
+	}
+	refreshBytes := rec.Last()
+	replay("refresh", refreshBytes, w.cur)
+	replay("form", formation, w.cur)
+	replay("append", appendBytes, w.cur)
+	if len(w.cur) > 0 {
+		w.listAndRead(c, 0, uint64(len(w.cur)), true)
+	}
+	c.Nontrivial = true
+	w.add(c, "kind:replays")
+	return nil
+}
+
 type job func(w *worker) error
 
 // sequences over the alphabet 0..n (n itself is out of range) of length <= maxLen
@@ -1218,6 +1314,11 @@ func Run(r *vh.Run) {
 				if err := jobs[ji](w); err != nil {
 					errs[wi] = fmt.Errorf("job %d: %w", ji, err)
 					return
+				}
+			}
+			if wi >= 2 && wi < 5 {
+				if err := w.replays(); err != nil {
+					errs[wi] = fmt.Errorf("replays: %w", err)
 				}
 			}
 			// moves the chain tip past the other contract's proof height: last, on two workers
